@@ -24,7 +24,7 @@ TARGETS = ['boltons.ioutils.SpooledBytesIO.write', 'boltons.ioutils.SpooledBytes
            'boltons.ioutils.SpooledIOBase.__next__', 'boltons.ioutils.SpooledIOBase.__len__', 'boltons.ioutils.MultiFileReader.read',
            'boltons.ioutils.MultiFileReader.seek', 'boltons.ioutils.MultiFileReader.__init__']
 BOUNDS = {
-    'quick': {'multi_long': 'three fixed members, every script of 4 calls', 'script': 'preset content + 2 solver-chosen operations from write/read(n)/read()/readline/readline(n)/readlines/iterate/seek(p)/seek-to-end/tell/getvalue/len',
+    'quick': {'multi_long': 'three fixed members, every script of 4 calls', 'spool_long': 'every script of 4 calls (3 in bytes mode) from 8 read/seek calls with no tell()/getvalue() in between, then the rest is read', 'script': 'preset content + 2 solver-chosen operations from write/read(n)/read()/readline/readline(n)/readlines/iterate/seek(p)/seek-to-end/tell/getvalue/len',
               'max_size': 'every value 1..len(data)+3 and never-rolling', 'chunks': 'classes ASCII, 2-, 3-, 4-byte, LF, CR, CRLF',
               'multifile': 'content <= 5 items, <= 3 member files (empty members allowed), 3 operations'},
     'thorough': {'script': '3 operations'},
@@ -54,6 +54,14 @@ def apply(f, op, arg, text, is_ref, chunk):
         return f.readline()
     if op == 'readline_n':
         return f.readline(arg)
+    if op == 'seek_bad':
+        if not text:
+            return None                  # bytes mode delegates to BytesIO / the real file, whose accepted whence values differ
+        try:
+            f.seek(0, 3)                 # not a valid whence: refused, and the stream stays where it was
+            return 'accepted'
+        except ValueError:
+            return 'ValueError'
     if op == 'readlines':
         return f.readlines()
     if op == 'iterate':
@@ -82,7 +90,7 @@ def apply(f, op, arg, text, is_ref, chunk):
     raise AssertionError(op)
 
 
-def _spool_body(text, preset, script):
+def _spool_body(text, preset, script, light=False):
     content = PRESETS[preset]
     mk_ref = (lambda: io.StringIO(newline='\n')) if text else io.BytesIO
     cls = ioutils.SpooledStringIO if text else ioutils.SpooledBytesIO
@@ -103,12 +111,20 @@ def _spool_body(text, preset, script):
                 where = 'text=%r preset=%r max_size=%d script=%r step %d' % (text, content, max_size, script, idx)
                 if got != exp:
                     return fail('spooled_%s_result' % op, '%s: got %r expected %r' % (where, got, exp))
+                if light:
+                    continue             # no tell()/getvalue() between the calls: they re-position the stream and hide stale reader state
                 if sp.tell() != ref.tell():
                     return fail('spooled_tell_after_%s' % op, '%s: tell %r expected %r' % (where, sp.tell(), ref.tell()))
                 if sp.getvalue() != ref.getvalue():
                     return fail('spooled_content_after_%s' % op, where)
                 if sp.tell() != ref.tell():
                     return fail('spooled_tell_after_getvalue', where)
+            if light:
+                rest_e, rest_g = ref.read(), sp.read()
+                if rest_g != rest_e:
+                    return fail('spooled_rest_after_script', 'text=%r preset=%r max_size=%d script=%r: got %r expected %r' % (text, content, max_size, script, rest_g, rest_e))
+                if sp.tell() != ref.tell():
+                    return fail('spooled_tell_after_script', 'text=%r preset=%r max_size=%d script=%r' % (text, content, max_size, script))
             rolled_seen = rolled_seen or internal(sp, '_rolled')
         finally:
             sp.close()
@@ -204,6 +220,27 @@ def multi_law(n: int, k0: int, k1: int, k2: int, k3: int, k4: int, c1: int, c2: 
         return _multi_body(bool(text), classes, c1, c2, script)
 
 
+LONG_OPS = [('seek', 0), ('seek', 2), ('seek_bad', 0), ('readline', 0), ('readline_n', 1), ('readline_n', 2), ('read_n', 2), ('read_all', 0)]
+
+
+def spool_long_law(o1: int, o2: int, o3: int, o4: int) -> bool:
+    """
+    pre: True
+    post: _
+    """
+    # four calls in a row WITHOUT tell()/getvalue() in between (those re-position the stream), then the rest is read:
+    # state left behind by one call (reader read-ahead, a refused seek) shows in the next
+    text = pinval('text', 1)
+    preset = pinval('preset', 1)
+    script = []
+    for idx, o in enumerate([o1, o2, o3, o4][:pinval('nops', 4)]):
+        oi = pinval('o1') if (idx == 0 and pinval('o1') is not None) else cz(o, 0, len(LONG_OPS) - 1)
+        op, arg = LONG_OPS[oi]
+        script.append((op, arg, 0))
+    with notrace():
+        return _spool_body(bool(text), preset, script, light=True)
+
+
 def multi_long_law(o1: int, o2: int, o3: int, o4: int, o5: int) -> bool:
     """
     pre: True
@@ -233,6 +270,12 @@ def obligations(tier):
                 obs.append(Ob('spool_law', timeout=T, pins={'text': text, 'preset': preset, 'nops': 2 if q else 3, 'op1': op1},
                               need_kinds=('rolled',)))
         obs.append(Ob('spool_law', timeout=T, pins={'text': text, 'preset': 0, 'nops': 2 if q else 3}, need_kinds=('rolled',)))
+        for preset in (1, 2):
+            if text:
+                for o1 in range(len(LONG_OPS)):
+                    obs.append(Ob('spool_long_law', timeout=T, pins={'text': 1, 'preset': preset, 'nops': 4, 'o1': o1}, need_kinds=('rolled',)))
+            else:
+                obs.append(Ob('spool_long_law', timeout=T, pins={'text': 0, 'preset': preset, 'nops': 3}, need_kinds=('rolled',)))
         obs.append(Ob('multi_long_law', timeout=T, pins={'text': text, 'nops': 4 if q else 5}))
         for op1 in range(len(MOPS)):
             obs.append(Ob('multi_law', timeout=T if q else 2700, pins={'text': text, 'nmax': 3 if q else 4, 'nops': 2 if q else 3, 'op1': op1}, need_kinds=('empty_member', 'full')))
